@@ -47,8 +47,98 @@ def _parse_pubkey(ex, args, ins, where):
         ex.nondets['secp.ParsePubKey.ok#%d' % len(ex.nondets)] = ok
     ex.cut_notes.add('stub: secp256k1.ParsePubKey verdict is an uninterpreted predicate of the key bytes')
     if ex.branch(ok, 'ParsePubKey verdict'):
-        return [Ptr(ex.new_obj(Opaque('secp256k1.PublicKey')), ()), NIL]
+        return [Ptr(ex.new_obj(OpaqueKey(list(els))), ()), NIL]
     return [NIL, opaque_err('secp256k1 parse error')]
+
+
+class OpaqueKey(Opaque):
+    """a parsed public key: opaque to the encoder, but remembers the serialized bytes it was parsed from"""
+    def __init__(self, els):
+        Opaque.__init__(self, 'secp256k1.PublicKey')
+        self.key = els
+
+
+_GX = 0x79BE667EF9DCBBAC55A06295CE870B07029BFCDB2DCE28D959F2815B16F81798
+_GY = 0x483ADA7726A3C4655DA4FBFC0E1108A8FD17B448A68554199C47D08FFB10D4B8
+
+
+def _ec_add(a, b):
+    P = SECP_P
+    if a is None:
+        return b
+    if b is None:
+        return a
+    if a[0] == b[0]:
+        if (a[1] + b[1]) % P == 0:
+            return None
+        lam = 3 * a[0] * a[0] * pow(2 * a[1], -1, P) % P
+    else:
+        lam = (b[1] - a[1]) * pow(b[0] - a[0], -1, P) % P
+    x = (lam * lam - a[0] - b[0]) % P
+    return (x, (lam * (a[0] - x) - a[1]) % P)
+
+
+def _ec_mul(k, pt):
+    r = None
+    while k:
+        if k & 1:
+            r = _ec_add(r, pt)
+        pt = _ec_add(pt, pt)
+        k >>= 1
+    return r
+
+
+def _ec_point(b):
+    """decode a serialized key already accepted by _pubkey_valid"""
+    P = SECP_P
+    x = int.from_bytes(bytes(b[1:33]), 'big')
+    if len(b) == 33:
+        y = pow((pow(x, 3, P) + 7) % P, (P + 1) // 4, P)
+        if (y & 1) != (b[0] & 1):
+            y = P - y
+        return (x, y)
+    return (x, int.from_bytes(bytes(b[33:65]), 'big'))
+
+
+def _ecdsa_verify_concrete(r, s, h, keybytes):
+    if not (1 <= r < SECP_N and 1 <= s < SECP_N):
+        return False
+    z = int.from_bytes(bytes(h[:32]), 'big')
+    w = pow(s, -1, SECP_N)
+    R = _ec_add(_ec_mul(z * w % SECP_N, (_GX, _GY)), _ec_mul(r * w % SECP_N, _ec_point(keybytes)))
+    return R is not None and R[0] % SECP_N == r
+
+
+@intrinsic('(*github.com/decred/dcrd/dcrec/secp256k1/v4/ecdsa.Signature).Verify')
+def _ecdsa_verify(ex, args, ins, where):
+    """ECDSA verification: exact (pure-Python curve arithmetic) when signature, digest and key are concrete;
+    otherwise an uninterpreted predicate of (r, s, digest, key bytes)"""
+    sp, hsl, kp = args
+    if sp is NIL or kp is NIL:
+        raise PathEnd('panic', 'nil signature or key in Verify ' + where)
+    sig = ex.heap[sp.obj]
+    key = ex.heap[kp.obj]
+    if not (isinstance(sig, tuple) and sig and sig[0] == 'sig') or not isinstance(key, OpaqueKey):
+        raise Unsupported('ecdsa Verify on a signature/key not built by the modelled constructors')
+    r, s = sig[1], sig[2]
+    h = ex.slice_elems(hsl)
+    ex.cut_notes.add('stub: ecdsa.Signature.Verify exact for concrete arguments (pure-Python secp256k1), uninterpreted predicate otherwise')
+    if not is_sym(r) and not is_sym(s) and all(not is_sym(b) for b in h) and all(not is_sym(b) for b in key.key):
+        if len(h) != 32:
+            raise Unsupported('ecdsa Verify with a digest that is not 32 bytes')
+        return _ecdsa_verify_concrete(r, s, h, key.key)
+    if ex.pinned is not None:
+        return ex.fresh('ecdsa.Verify.ok', 1, boolean=True)
+    if len(h) != 32:
+        raise Unsupported('ecdsa Verify with a digest that is not 32 bytes')
+    k = ('ecdsa_verify', len(key.key))
+    f = ex.uf_cache.get(k)
+    if f is None:
+        f = ex.uf_cache[k] = z3.Function('ecdsa_verify_%d' % len(key.key), z3.BitVecSort(256), z3.BitVecSort(256),
+                                         z3.BitVecSort(256), z3.BitVecSort(8 * len(key.key)), z3.BoolSort())
+    ok = f(to_bv(r, 256), to_bv(s, 256), bytes_to_bv(h), bytes_to_bv(key.key))
+    ex.nondets['ecdsa.Verify.ok#%d' % len(ex.nondets)] = ok
+    return ok
 
 
 @intrinsic('(*github.com/decred/dcrd/dcrec/secp256k1/v4.PublicKey).SerializeUncompressed',
